@@ -579,19 +579,24 @@ def has_sources(st) -> bool:
     return "sources" in st.dag and "mixing_matrix" in st.dag
 
 
-def base_state(kind, n_feat, sd, n_ind=5, seed=3, missing=0.1):
+def base_state(kind, n_feat, sd, n_ind=5, seed=3, missing=0.1, single_visit=False):
     """A real model of `kind`, initialised on a synthetic cohort the way `fit` does, and a fresh clone of its state holding the
     data and individual latent variables.  Cached per configuration (the clone is new at every call)."""
     import torch
     from harness import synth
     from leaspy.io.data.dataset import Dataset
-    key = (kind, n_feat, sd, n_ind, seed, missing)
+    key = (kind, n_feat, sd, n_ind, seed, missing, single_visit)
     if key not in _BASE:
         df = None
         for s in range(seed, seed + 20):    # a joint cohort needs an observed and a censored event to be initialised
             df = synth.make_df(n_ind=n_ind, n_feat=n_feat, joint=(kind == "joint"), seed=s, kind=kind, missing=missing)
             if kind != "joint" or n_ind < 3 or 1 <= df.groupby("ID")["EVENT_BOOL"].first().sum() <= n_ind - 1:
                 break
+        if single_visit and n_ind >= 2:
+            # the second individual keeps its first visit only (a valid and common cohort shape)
+            second = list(dict.fromkeys(df["ID"]))[1]
+            rows = df.index[df["ID"] == second]
+            df = df.drop(index=rows[1:]).reset_index(drop=True)
         m = synth.make_model(kind, n_feat, sd)
         ds = Dataset(synth.make_data(df, kind))
         m.initialize(ds)
@@ -827,7 +832,7 @@ def eval_state(inp, collect=None):
     kind, nf, sd = inp["kind"], inp["n_feat"], inp["source_dimension"]
     c = inp["cohort"]
     try:
-        m, ds, st = base_state(kind, nf, sd, c["n_ind"], c["seed"], c.get("missing", 0.1))
+        m, ds, st = base_state(kind, nf, sd, c["n_ind"], c["seed"], c.get("missing", 0.1), c.get("single_visit", False))
         put_values(st, inp["values"])
     except Exception as e:
         return [(f"state:{kind}:setup-raises:{type(e).__name__}", f"building the state raised {type(e).__name__}: {e}", None, None)], {}
@@ -899,10 +904,12 @@ def search_states(run: Run, T, thorough: bool):
             style = styles[r % len(styles)]
             # cohort sizes include ONE and two individuals (the property speaks of every state); a joint cohort needs an observed
             # and a censored event, so the joint kind keeps >= 3 individuals
-            n_ind = [3, 5, 1, 5, 2, 5, 1][r % 7]
+            n_ind, c_seed = [(3, 3), (5, 4), (1, 3), (5, 3), (2, 4), (5, 3), (1, 4)][r % 7]
             if kind == "joint" and n_ind < 3:
                 n_ind = 3
-            cohort = dict(n_ind=n_ind, seed=3 + (r % 2), missing=0.1)
+            cohort = dict(n_ind=n_ind, seed=c_seed, missing=0.1)
+            if r % 7 in (1, 5):
+                cohort["single_visit"] = True
             run.count("cohort_size", str(n_ind))
             try:
                 m, ds, st = base_state(kind, nf, sd, **cohort)
@@ -910,6 +917,12 @@ def search_states(run: Run, T, thorough: bool):
                 run.fail(f"state:{kind}:setup-raises:{type(e).__name__}", f"initialising a {kind} model raised {type(e).__name__}: {e}",
                          dict(what="state", kind=kind, n_feat=nf, source_dimension=sd, cohort=cohort, values={}))
                 break
+            try:
+                nv = [int(x) for x in ds.n_visits_per_individual]
+                run.count("cohort_visits", "some individual has a single visit" if (min(nv) == 1 and len(nv) > 1) else
+                          ("one individual" if len(nv) == 1 else "every individual has >= 2 visits"))
+            except Exception:  # noqa
+                pass
             inp = dict(what="state", kind=kind, n_feat=nf, source_dimension=sd, cohort=cohort, style=style,
                        values=random_values(st, rng, style, kind))
             want_t3 = T is not None and r < (1 if not thorough else 4)
